@@ -474,6 +474,13 @@ func (fv *FnVerifier) callWrites(c *ssa.CallCommon) (keys []string, all bool) {
 		return nil, true
 	}
 	name := calleeName(fn)
+	if strings.HasPrefix(name, "(*"+atomicPkg+".") && len(c.Args) > 0 {
+		// atomic cells: the write (if any) goes to the field holding the cell
+		if mdl, ok := models[name]; ok && len(mdl.writes(fv)) == 0 && !strings.HasSuffix(name, ".Set") && !strings.HasSuffix(name, ".Unset") {
+			return nil, false
+		}
+		return fv.keysOfAddr(c.Args[0]), false
+	}
 	if mdl, ok := models[name]; ok {
 		ks := mdl.writes(fv)
 		for _, k := range ks {
